@@ -414,7 +414,7 @@ def attr_shape_cases():
 def prop_C04(ctx):
     ctx.build()
     q = ctx.tier == 'quick'
-    items = gen.grid_trait_instrs() + gen.multi_trait_items(ctx.rng, 1500 if q else 12000)
+    items = gen.grid_trait_instrs() + gen.multi_trait_items(ctx.rng, 1500 if q else 12000) + gen.c04_repeat_items(ctx.rng, 800 if q else 8000)
     recs = ctx.run_set('trait_grid', items, vlib.obs_headers)
     recs += ctx.run_set('corpus', corpus_cases(), vlib.obs_headers)
     comp = ctx.run_set('composites', gen.composites(ctx.rng, ctx.sz['comp'] // 2), vlib.obs_headers)
@@ -426,15 +426,13 @@ def prop_C04(ctx):
             continue
         if any(isinstance(a, gen.Group) or (a.name in gen.TRAIT_NAMES and not hasattr(a, 'cp')) or a.name == 'o2o' for a in it.attrs):
             continue
-        if gen.uses_repeat(it):
-            continue
         exp = oracles.expected_headers(it)
         act = oracles.actual_headers(r['out'])
         n_chk += 1
         if act != exp:
             ctx.report(r, 'generated impl headers differ from the documented set: expected %r, got %r' % (exp, act), 'README table vs impl headers',
                        key='headers')
-        if len([a for a in it.attrs if a.name in gen.TRAIT_NAMES]) > 1 and len(perm_items) < (400 if q else 3000):
+        if len([a for a in it.attrs if a.name in gen.TRAIT_NAMES]) > 1 and len(perm_items) < (400 if q else 3000) and not gen.uses_repeat(it):
             it2 = it.clone()
             ctx.rng.shuffle(it2.attrs)
             it2.meta = dict(it.meta, perm_of=r['id'])
